@@ -159,7 +159,7 @@ func (f *TLSFarm) ServerCert(identity, ip string) tls.Certificate {
 	defer f.mu.Unlock()
 	k := identity + "/" + ip
 	// certificates whose dates are relative to "a few seconds ago" are made afresh every time
-	fresh := identity == "justexpired" || identity == "justvalid" || identity == "expiring"
+	fresh := identity == "justexpired" || identity == "justvalid" || identity == "expiring" || identity == "soonvalid"
 	if c, ok := f.serverCert[k]; ok && !fresh {
 		return c
 	}
@@ -171,7 +171,7 @@ func (f *TLSFarm) ServerCert(identity, ip string) tls.Certificate {
 	san := net.ParseIP(ip)
 	now := time.Now()
 	switch identity {
-	case "caA", "expired", "wrongname", "notyet", "justexpired", "justvalid", "expiring":
+	case "caA", "expired", "wrongname", "notyet", "justexpired", "justvalid", "expiring", "soonvalid":
 		spec.Issuer, spec.IssuerKey = f.cas["caA"], caKeys["caA"]
 	case "caB":
 		spec.Issuer, spec.IssuerKey = f.cas["caB"], caKeys["caB"]
@@ -196,6 +196,9 @@ func (f *TLSFarm) ServerCert(identity, ip string) tls.Certificate {
 	}
 	if identity == "justvalid" { // genuine, and valid since 20 s only
 		spec.NotBefore, spec.NotAfter = now.Add(-20*time.Second), now.Add(48*time.Hour)
+	}
+	if identity == "soonvalid" { // issued by the configured CA, right name, valid from 3 s after the server starts
+		spec.NotBefore, spec.NotAfter = now.Add(3*time.Second), now.Add(48*time.Hour)
 	}
 	if identity == "notyet" {
 		spec.NotBefore, spec.NotAfter = now.Add(24*time.Hour), now.Add(48*time.Hour)
